@@ -55,7 +55,8 @@ func (fc *fileCache) Add(key Key, content io.Reader) (err error) {
 			_ = os.Remove(file.Name())
 		}
 	}()
-	if _, err = io.Copy(file, verifCrashReader(content)); err != nil {
+	content = verifCrashReader(content)
+	if _, err = io.Copy(file, content); err != nil {
 		return
 	}
 	verifCrashPoint("after-copy")
